@@ -35,7 +35,7 @@ import deep.logging
 from deep.api.tracepoint.eventsnapshot import WATCH_SOURCE_CAPTURE
 from deep.logging import logging
 from deep.api.tracepoint import WatchResult, Variable
-from deep.processor.variable_set_processor import VariableSetProcessor, VariableProcessorConfig
+from deep.processor.variable_set_processor import VariableSetProcessor, VariableProcessorConfig, VariableCacheProvider
 from deep.utils import str2bool
 
 if TYPE_CHECKING:
@@ -56,6 +56,9 @@ class ActionContext(abc.ABC):
         self.trigger_context: 'TriggerContext' = parent
         self.location_action: 'LocationAction' = action
         self._triggered = False
+        # every action collects into its own variable table, with its own identity cache: actions that share a trace
+        # event (several tracepoints on one line) must not empty, share or renumber one another's variables
+        self.var_cache = VariableCacheProvider()
 
     def __enter__(self):
         """Enter and open the context."""
@@ -89,7 +92,7 @@ class ActionContext(abc.ABC):
         :param watch: The watch expression to evaluate.
         :return: Tuple with WatchResult, collected variables, and the log string for the expression
         """
-        var_processor = VariableSetProcessor({}, self.trigger_context.var_cache, self.variable_config())
+        var_processor = VariableSetProcessor({}, self.var_cache, self.variable_config())
 
         try:
             result = self.trigger_context.evaluate_expression(watch)
@@ -111,7 +114,7 @@ class ActionContext(abc.ABC):
         :param variable: the value to process
         :return: Tuple with WatchResult, collected variables, and the log string for the expression
         """
-        var_processor = VariableSetProcessor({}, self.trigger_context.var_cache, self.variable_config())
+        var_processor = VariableSetProcessor({}, self.var_cache, self.variable_config())
         variable_id, log_str = var_processor.process_variable(name, variable)
         if variable_id.vid is None:
             return WatchResult(WATCH_SOURCE_CAPTURE, name, None, "Variable limit reached"), {}, log_str
